@@ -18,7 +18,7 @@ for id in $ids; do
   res=""
   for p in $(jq -r '.expected_checks[]' $d/meta.json); do
     o=$(VERIF_BUDGET_S=$budget ./check "$p" 2>&1); code=$?
-    first=$(echo "$o" | grep -m1 "signature=" | sed 's/^ *//; s/|/\\|/g')
+    first=$(echo "$o" | grep -m1 "class=.*signature=" | sed 's/^ *//; s/|/\\|/g')
     verdict="missed"; [ $code -eq 1 ] && verdict="caught"; [ $code -ge 2 ] && verdict="check broke (exit $code)"
     echo "| $id | $builds | $tests | $p | $verdict | $first |" >> $out
     res="$res{\"check\":\"$p\",\"exit\":$code,\"verdict\":\"$verdict\"},"
